@@ -2,6 +2,7 @@ package main
 
 import (
 	"bytes"
+	"sync/atomic"
 	"context"
 	"fmt"
 	"os"
@@ -11,6 +12,10 @@ import (
 	"sync"
 	"time"
 )
+
+var nFailed int32
+
+const maxFailures = 12
 
 type SolveResult struct {
 	Status  string  // unsat | sat | unknown | timeout | error
@@ -152,6 +157,10 @@ func solveAll(prelude string, encs []*FnEnc, dir string, timeoutSec, workers int
 		go func() {
 			defer wg.Done()
 			for j := range ch {
+				if atomic.LoadInt32(&nFailed) >= maxFailures && !j.ob.Cover {
+					j.ob.Result = &SolveResult{Status: "skipped", Tried: []string{"not attempted: the failure budget of this run was already used up"}}
+					continue
+				}
 				full := j.f.out.String()
 				var b strings.Builder
 				b.WriteString(prelude)
@@ -185,6 +194,9 @@ func solveAll(prelude string, encs []*FnEnc, dir string, timeoutSec, workers int
 							j.ob.Result.Status = r2.Status
 						}
 					}
+				}
+				if !j.ob.Cover && j.ob.Result.Status != "unsat" {
+					atomic.AddInt32(&nFailed, 1)
 				}
 			}
 		}()
